@@ -6,9 +6,9 @@ LEVEL = 'exploration'
 CONFIGS = [('lex_inf', 'rc2'), ('lex_inf', 'z3')]
 WEAKLY = False
 WANT = 'strong'
-RULE = ('strongly consistent bases with independent-layer and D4 shapes over-weighted (several minimum-cardinality falsification sets with different continuations); both back-ends judged by lexicographic comparison of per-layer count vectors on enumerated worlds. Non-trivial = A&B and A&!B both satisfiable; distinct by hash(base, query, back-end).')
+RULE = ('strongly consistent bases with independent-layer and D4 shapes over-weighted (several minimum-cardinality falsification sets with different continuations); both back-ends judged by lexicographic comparison of per-layer count vectors on enumerated worlds. Non-trivial = A&B and A&!B both satisfiable; distinct by hash(base, query, back-end). Additionally a bounded number of LARGE bases (8-100 atoms: shipped corpora, disjoint unions of generated bases) x 6 base-derived queries are judged by the same definition evaluated with satisfiability questions instead of world enumeration (vf/bigref.py: certified models, own z3 context, no MaxSAT/Tseitin/pysmt).')
 ASSUMPTIONS = ['worlds are enumerated: bases of <= 6 atoms (incl. query atoms outside the signature) and <= 8 conditionals, plus a ~5% share of "wide" bases with 7-8 atoms, 9-13 conditionals or 5-7 layers; formula depth <= 3 (deep equivalent wrappers to depth 9)', 'reference semantics vf/refmodel.py is the definition quoted in the property (self-tested on textbook instances at start-up)']
-TRUSTED = []
+TRUSTED = ["z3 'unsat' answers inside the large-base reference vf/bigref.py (its 'sat' answers are re-checked by the pure-Python evaluator)"]
 FLOOR = {'quick': 300, 'thorough': 3000}
 BUDGET = {'quick': 90, 'thorough': 1200}
 N = {'quick': 1600, 'thorough': 20000}
